@@ -4,6 +4,7 @@ import (
 	"fmt"
 	"io"
 	"net"
+	"strconv"
 	"strings"
 	"time"
 
@@ -157,7 +158,7 @@ func (h *Client) dial(addr string) (net.Conn, error) {
 	if h.Opts.DialFail != nil && h.Opts.DialFail(n) {
 		return nil, fmt.Errorf("scenario: dial %d refused", n)
 	}
-	c, _ := vsched.NewConnPair(fmt.Sprintf("client#%d", len(h.Conns)), fmt.Sprintf("server#%d", len(h.Conns)))
+	c, _ := vsched.NewConnPair("client#"+strconv.Itoa(len(h.Conns)), "server#"+strconv.Itoa(len(h.Conns)))
 	sc := &SrvConn{Idx: len(h.Conns), C: c, Streams: map[uint32]*SrvStream{}, dec: hpack.NewDecoder(4096, nil), Enc: NewPeerEncoder()}
 	h.Conns = append(h.Conns, sc)
 	return c, nil
